@@ -14,16 +14,18 @@ a pool; kind 'a': attribute (property) of an object drawn from a pool.
 
 # pools: name -> list of alternatives; strings starting with '@' are store references of the purity session's shared pool
 POOLS = {
-    'img': ['@IMG', '@ISQ', '@A', '@IMGI', '@IMGF', '@IMGT'],
+    'img': ['@IMG', '@ISQ', '@A', '@IMGI', '@IMGF', '@IMGT', '@IMGZ'],
     'sq': ['@ISQ', '@ISQ', '@G2'],
-    'real2d': ['@A', '@O', '@B', '@IMG', '@ISQ', '@IMGF', '@IMGT'],
-    'any2d': ['@A', '@O', '@CX', '@IMG', '@M', '@MB', '@IMGI', '@IMGT'],
+    'real2d': ['@A', '@O', '@B', '@IMG', '@ISQ', '@IMGF', '@IMGT', '@IMGZ', '@OZS'],
+    'any2d': ['@A', '@O', '@CX', '@IMG', '@M', '@MB', '@IMGI', '@IMGT', '@IMGZ', '@OZS'],
     'cplx': ['@CX', '@CX', '@A'],
     'cube': ['@CUBE', '@G3', '@MS'],
-    'mask': ['@M', '@MB', '@MB', '@MI'],
+    'mask': ['@M', '@MB', '@MB', '@MI', '@MZ'],
     'maskcube': ['@MS'],
     'anymask': ['@M', '@MB', '@MS', '@MI'],
-    'opd': ['@O', '@B', '@OF'],
+    'opd': ['@O', '@B', '@OF', '@OZS'],
+    'rho': ['@RHO'],
+    'theta': ['@THETA'],
     'shape': [[4, 5], [6, 6], [5, 4], {'$tuple': [7, 3]}, '@SHP', 5],
     'shape2': [[9, 9], [8, 9], {'$tuple': [9, 8]}, [12, 10]],
     'shapeS0': ['S0'],                   # replaced by the session's S0
@@ -133,8 +135,13 @@ CATALOGUE = [
     (F, 'translation_defocus', ['mask'], {'f_number': 'fnum', 'translation': 'transl'}),
     (F, 'window', ['img'], {'shape': 'winshape'}),
     (F, 'zernike', ['mask', 'index'], {'normalize': 'bool'}),
+    (F, 'zernike', ['mask', 'index'], {'normalize': 'bool', 'rho': 'rho', 'theta': 'theta'}),
     (F, 'zernike_basis', ['mask', 'modes'], {'vectorize': 'bool', 'normalize': 'bool'}),
+    (F, 'zernike_basis', ['mask', 'modes'], {'rho': 'rho', 'theta': 'theta'}),
     (F, 'zernike_compose', ['mask', 'coeffs'], {'normalize': 'bool'}),
+    (F, 'zernike_compose', ['mask', 'coeffs'], {'rho': 'rho', 'theta': 'theta'}),
+    (F, 'zernike_fit', ['opd', 'mask', 'modes'], {'rho': 'rho', 'theta': 'theta'}),
+    (F, 'zernike_remove', ['opd', 'mask', 'modes'], {'rho': 'rho', 'theta': 'theta'}),
     (F, 'zernike_coordinates', ['mask'], {'shift': 'ishift', 'rotate': 'angle'}),
     (F, 'zernike_fit', ['opd', 'mask', 'modes'], {'normalize': 'bool'}),
     (F, 'zernike_remove', ['opd', 'mask', 'modes'], {}),
@@ -223,7 +230,7 @@ def autocall(rng, ctx):
             (target in ('propagate_dft', 'propagate_fft') and k == 'pixelscale')
         # seeds are always passed (seed=None is OS entropy: outside the simulator) and smear always gets its angle (angle=None
         # draws from the global generator by design -- an unseeded consumer, exercised under C18)
-        always = k == 'seed' or (target == 'smear' and k == 'angle')
+        always = k == 'seed' or (target == 'smear' and k == 'angle') or k in ('rho', 'theta')
         if always or (required and k not in ('rotate', 'antialias', 'flatten', 'pad', 'drop')) or rng.random() < 0.35:
             kw[k] = _pick(rng, p, ctx)
     if kind == F:
